@@ -160,7 +160,22 @@ def r_scenario(ctx, main):
                             if not args or args[0] is not False:
                                 raise Unknown("error! with first argument %r" % (args[:1],))
                             return UNIT
-                        if nm in ("format", "write", "writeln"):
+                        if nm == "format":
+                            # a message built ahead of the report: keep the names of the values it is built from readable
+                            a = list(node.get("args") or [])
+                            if a and a[0].get("k") == "lit" and a[0].get("t") == "str":
+                                vals = []
+                                for x in a[1:]:
+                                    v = absint.CURRENT.eval(x) if absint.CURRENT is not None else OPAQUE
+                                    t = fname(v) if fname(v) is not None else ("<%s>" % v[1] if isinstance(v, tuple) and v[:1] == ("liberr",) else None)
+                                    vals.append(t if t is not None else "?")
+                                parts = __import__("re").split(r"\{[^{}]*\}", a[0]["v"])
+                                out = parts[0]
+                                for p_, v_ in zip(parts[1:], vals + ["?"] * len(parts)):
+                                    out += v_ + p_
+                                return ("str", out)
+                            return OPAQUE
+                        if nm in ("write", "writeln"):
                             return OPAQUE
                         return NotImplemented
                     if kind == "fn":
@@ -295,9 +310,19 @@ def r_scenario(ctx, main):
                     txt = " ".join(a[1] for a in rec[1] if isinstance(a, tuple) and a[:1] == ("str",) and isinstance(a[1], str))
                     if "stdin" in txt:
                         return "<stdin>"
+                    for name in state:
+                        if __import__("re").search(r"(?<![A-Za-z0-9])%s(?![A-Za-z0-9])" % name, txt):
+                            return name
                     return None
                 got_log = [(k, doc_of((k, a))) for k, a in log]
+                # reports about the schema or the feature list name no document; a validation report that cannot be attributed to one
+                # makes the scenario undecidable, not wrong
+                unattributed = [k for (k, d), (_, a) in zip(got_log, log) if d is None and any(
+                    isinstance(x, tuple) and x[:1] == ("str",) and isinstance(x[1], str) and "alidation" in x[1] for x in a)]
                 got_log = [(k, d) for k, d in got_log if d is not None]
+                if unattributed and got_log != exp_log:
+                    ctx.incomplete_msg(rid, "%s: %d validation report(s) could not be attributed to a document" % (label, len(unattributed)))
+                    continue
                 if schema_ok and got_log != exp_log:
                     viol("report|%s" % cfgname, "%s: reports are %s; expected %s (info = success, error = failure)" % (label, got_log, exp_log))
                 is_err = isinstance(res, tuple) and res[:1] == ("Err",)
